@@ -19,51 +19,30 @@ from vlib import SPEC, OUT
 PID = "C19"
 ODIR = os.path.join(OUT, PID)
 
-# family -> (Lo, Hi, W) ; Hi beyond the family's size is cut by the spec (Last)
+# One TLC run serves a group of families (MC_PGPFrame.tla: GrpQ*/GrpT*/One_<family>); every family of the group is
+# enumerated in W interleaved chains.  (group definition, W, workers, HiR64p, HiPkt, seed offset)
 BIG = 10 ** 6
-def _families(tier):
-    q = tier == "quick"
-    return {
-        "r64b":     (0, BIG, 4),                       # ALL octet strings of length <= 2 (65793)
-        "r64p":     (0, 200 if q else 700, 4 if q else 8),   # pattern string of every length, with armor
-        "armorbad": (0, BIG, 2),
-        "len":      (0, BIG, 2),                       # every length 0..8500 and the special ones
-        "lendec":   (0, BIG, 2),
-        "tagenc":   (0, BIG, 1),
-        "extract":  (0, BIG, 2),
-        "partial":  (0, BIG, 2),
-        "mpi":      (0, BIG, 2),
-        "mpidec":   (0, BIG, 1),
-        "s2kcount": (0, BIG, 1),                       # all 256 count octets
-        "pkt":      (0, 18 * 24 - 1 if q else 18 * 80 - 1, 2 if q else 4),
-        "sigdec":   (0, BIG, 2),
-    }
+def groups(tier):
+    if tier == "quick":
+        # r64q: all strings of length <= 1 + a quarter of the two-octet ones; r64pq: lengths 0..50 and +-2 around the
+        # next three line-wrap boundaries (the thorough tier has r64b = ALL strings of length <= 2 and r64p = every length)
+        return [("GrpQ1", 6, 6, 0, 0, 0), ("GrpQ2", 2, 8, 0, 0, 0), ("GrpQ3", 1, 6, 0, 0, 0), ("GrpQ4", 3, 6, 0, 18 * 24 - 1, 0)]
+    return [("GrpT1", 8, 8, 0, 0, 0), ("GrpT2", 8, 8, 700, 0, 0), ("GrpT2", 6, 6, 300, 0, 7919), ("GrpT3", 3, 9, 0, 0, 0),
+            ("GrpQ3", 1, 6, 0, 0, 0), ("GrpT4", 2, 10, 0, 18 * 80 - 1, 0)]
 
-def families(tier):
-    f = _families(tier)
-    if tier != "quick":
-        f["r64r"] = (0, 29999, 4)                      # 30000 pseudo-random strings of length 3..64
-        f["lenx"] = (0, 70000 - 8501, 4)               # every length 8501..70000
-        f["mpix"] = (0, 70000 - 1101, 4)               # every integer 1101..70000
-    return f
+def cfg_text(grp, lo, hi, w, seed, hir64p=0, hipkt=0):
+    return ("SPECIFICATION Spec\nCONSTANTS\n Families <- %s\n Lo = %d\n Hi = %d\n W = %d\n HiR64p = %d\n HiPkt = %d\n Seed = %d\n"
+            "INVARIANTS Theorems Emit\nCHECK_DEADLOCK FALSE\n" % (grp, lo, hi, w, hir64p, hipkt, seed))
 
-def cfg_text(fam, lo, hi, w, seed):
-    return ("SPECIFICATION Spec\nCONSTANTS\n Family = \"%s\"\n Lo = %d\n Hi = %d\n W = %d\n Seed = %d\n"
-            "INVARIANTS Theorems Emit\nCHECK_DEADLOCK FALSE\n" % (fam, lo, hi, w, seed))
-
-def write_cfg(fam, lo, hi, w, seed, tag=""):
+def gen_group(grp, lo, hi, w, workers, seed, hir64p=0, hipkt=0, tag="", timeout=1500):
     d = os.path.join(ODIR, "cfg")
     os.makedirs(d, exist_ok=True)
-    p = os.path.join(d, "GEN_PGP_%s%s.cfg" % (fam, tag))
-    with open(p, "w") as f:
-        f.write(cfg_text(fam, lo, hi, w, seed))
-    return p
-
-def gen_family(fam, lo, hi, w, seed, tag="", timeout=1500):
-    cfgp = write_cfg(fam, lo, hi, w, seed, tag)
-    r = vlib.tlc("MC_PGPFrame", cfgp, workers=w, timeout=timeout, xmx="3g")
+    cfgp = os.path.join(d, "GEN_PGP_%s%s.cfg" % (grp, tag))
+    with open(cfgp, "w") as f:
+        f.write(cfg_text(grp, lo, hi, w, seed, hir64p, hipkt))
+    r = vlib.tlc("MC_PGPFrame", cfgp, workers=workers, timeout=timeout, xmx="3g")
     if r.error:
-        raise vlib.Infra("TLC %s: %s\n%s" % (fam, r.error, r.out[-1500:]))
+        raise vlib.Infra("TLC %s: %s\n%s" % (grp, r.error, r.out[-1500:]))
     return r
 
 def input_class(c):
@@ -95,7 +74,7 @@ def show(v):
         return repr("".join(chr(x) for x in v))
     return json.dumps(v)
 
-def compare(ck, cases, got, seed, tier):
+def compare(ck, cases, got, seed, tier, replay_path=None):
     """cases: list of dicts with fam, i, op, in, exp; got: {(fam,i): got}.  One VIOLATION per distinct key
     (first failing case = replay artefact), with the number of failing cases of that key."""
     bykey, order = {}, []
@@ -118,6 +97,9 @@ def compare(ck, cases, got, seed, tier):
         for k in fields[:3]:
             what += "\n    %s expected %s\n    %s got      %s" % (k, show(c["exp"].get(k))[:400], k, show(None if g is None else g.get(k))[:400])
         what += "\n    input " + ", ".join("%s=%s" % (k, show(v)[:400]) for k, v in c["in"].items())
+        if replay_path:                                   # replaying: the artefact stays the file that was given
+            ck.violation(key, what, replay_path=replay_path)
+            continue
         ck.violation(key, what, replay_obj={"kind": "A", "seed": seed, "tier": tier, "case": c, "got": g,
                                             "failing_cases_of_this_key": [[x[0]["fam"], x[0]["i"]] for x in bykey[key]][:200]})
     return len(order)
@@ -210,9 +192,12 @@ def apply_trace_result(ck, res):
 def run(tier, seed):
     ck = vlib.Check(PID, tier, seed, "model_checking")
     os.makedirs(ODIR, exist_ok=True)
+    for old in os.listdir(ODIR):                       # artefacts of earlier runs
+        if old.startswith(("violation-", "rejected-", "trace-", "cases-", "got-")):
+            os.unlink(os.path.join(ODIR, old))
     exe = vlib.build_driver("drv_pgp", extra_src=["seam_rng.cc"])
     vlib.log("build done at %.0fs" % (time.time() - ck.t0))
-    fams = families(tier)
+    grps = groups(tier)
     quick = tier == "quick"
     # ---- B first part: record (fast), validation runs in parallel with the generators
     tp = os.path.join(ODIR, "record.ndjson")
@@ -229,52 +214,53 @@ def run(tier, seed):
     for k in ("Fpr", "KeyId", "SigHash", "S2K", "KDF", "SigPrep", "SecEnc"):
         if not kinds.get(k):
             raise vlib.Infra("no %s event recorded (vacuous trace)" % k)
-    nchunk = 4 if quick else 8
+    nchunk = 2 if quick else 6
     chunks = [events[k::nchunk] for k in range(nchunk)]
 
     results = {}
-    allcases = []
-    nviol_b = [0]
-    with cf.ThreadPoolExecutor(max_workers=7 if quick else 6) as ex:
-        order = sorted(fams, key=lambda f: 0 if f in ("r64b", "r64p") else 1)       # the long ones first
-        futs = {ex.submit(gen_family, f, fams[f][0], fams[f][1], fams[f][2], seed): ("gen", f) for f in order}
-        if not quick:      # a second pattern seed for the armor family
-            futs[ex.submit(gen_family, "r64p", 1, 300, 4, seed + 7919, "-s2")] = ("gen", "r64p-s2")
+    with cf.ThreadPoolExecutor(max_workers=8) as ex:
+        futs = {}
+        for gi, (grp, w, workers, hir, hip, soff) in enumerate(grps):
+            futs[ex.submit(gen_group, grp, 0, BIG, w, workers, seed + soff, hir, hip, "-%d" % gi)] = ("gen", (grp, soff))
         for k, ch in enumerate(chunks):
             futs[ex.submit(check_trace, "rec%d" % k, ch)] = ("tv", k)
         for fu in cf.as_completed(futs):
-            kind, f = futs[fu]
+            kind, what = futs[fu]
             if kind == "tv":
                 apply_trace_result(ck, fu.result())
                 continue
+            grp, soff = what
             r = fu.result()
-            ck.add_tlc("tlc-" + f, r)
+            ck.add_tlc("tlc-%s%s" % (grp, "-s2" if soff else ""), r)
             if r.violation:
                 # a theorem of the specification itself failed: the oracle is wrong, not the code
-                raise vlib.Infra("PGPFrame.tla theorem violated in family %s (%s); see %s" % (
-                    f, r.violation, os.path.join(OUT, "tlc")))
-            cs = [c for c in r.printed if isinstance(c, dict) and "op" in c]
-            if len(cs) != r.distinct or not cs:
-                raise vlib.Infra("family %s: %d cases printed for %d states" % (f, len(cs), r.distinct))
-            for c in cs:
-                c["fam"] = f
-            results[f] = cs
-            vlib.log("family %-9s %6d cases (TLC %.0fs) at %.0fs" % (f, len(cs), r.wall, time.time() - ck.t0))
+                raise vlib.Infra("PGPFrame.tla theorem violated in group %s (%s); see %s" % (
+                    grp, r.violation, os.path.join(OUT, "tlc")))
+            recs = [x for x in r.printed if isinstance(x, dict) and "fam" in x and "c" in x]
+            if len(recs) != r.distinct or not recs:
+                raise vlib.Infra("group %s: %d cases printed for %d states" % (grp, len(recs), r.distinct))
+            n = {}
+            for x in recs:
+                c = x["c"]
+                c["fam"] = x["fam"] + ("-s2" if soff else "")
+                results.setdefault(c["fam"], []).append(c)
+                n[c["fam"]] = n.get(c["fam"], 0) + 1
+            vlib.log("group %-6s %s (TLC %.0fs) at %.0fs" % (grp, " ".join("%s=%d" % kv for kv in sorted(n.items())), r.wall, time.time() - ck.t0))
     ck.part("trace-events", **kinds)
     vlib.log("generation + trace validation done at %.0fs" % (time.time() - ck.t0))
     # ---- A: the real code on every case (s2kcount hashes 1.6 GB and runs beside the rest)
-    groups = {"s2k": [], "r64b": [], "rest": []}
+    dgroups = {"s2k": [], "r64b": [], "rest": []}
     for f, cs in results.items():
-        groups["s2k" if f == "s2kcount" else "r64b" if f in ("r64b", "r64r", "lenx", "mpix") else "rest"] += cs
+        dgroups["s2k" if f == "s2kcount" else "r64b" if f in ("r64b", "r64q", "r64r", "lenx", "mpix") else "rest"] += cs
     with cf.ThreadPoolExecutor(max_workers=3) as ex:
-        gots = dict(zip(groups, ex.map(lambda n: run_cases(exe, groups[n], n), groups)))
+        gots = dict(zip(dgroups, ex.map(lambda n: run_cases(exe, dgroups[n], n), dgroups)))
     vlib.log("driver done at %.0fs" % (time.time() - ck.t0))
-    for n in groups:
-        compare(ck, groups[n], gots[n], seed, tier)
+    for n in dgroups:
+        compare(ck, dgroups[n], gots[n], seed, tier)
     for f, cs in results.items():
         ck.add_cases(f, len(cs), [json.dumps(c["in"], sort_keys=True) for c in cs if nontrivial(c)])
     # samples
-    for f in ("r64p", "armorbad", "len", "partial", "pkt"):
+    for f in ("r64p", "r64pq", "armorbad", "len", "partial", "pkt"):
         cs = results.get(f) or []
         if cs:
             c = cs[min(len(cs) - 1, 7)]
@@ -288,10 +274,12 @@ def run(tier, seed):
                       "from PGPFrame.tla, compared for equality with what the real encoder/decoder returns. direction B: recorded "
                       "calls of fingerprint/key-id/signature-hash/S2K/KDF with the octets given to libgcrypt, validated by "
                       "PGPTrace.tla. A case is non-trivial when its input has a non-zero octet/number; distinct = distinct inputs "
-                      "per family." % ", ".join(sorted(fams)))
+                      "per family." % ", ".join(sorted(results)))
     ck.cov["exhaustive"] = False
-    ck.cov["exhaustive_parts"] = ["r64b (all octet strings of length <= 2)", "len 0..8500", "lendec/extract: all 256 first octets",
-                                  "tagenc: all 64 tags", "s2kcount: all 256 count octets", "mpi: all integers 0..1100"]
+    ck.cov["exhaustive_parts"] = [("r64q: all octet strings of length <= 1 and a quarter of those of length 2" if quick else
+                                   "r64b: all octet strings of length <= 2"), "len 0..8500" + ("" if quick else " (lenx: ..70000)"),
+                                  "lendec/extract: all 256 first octets", "tagenc: all 64 tags", "s2kcount: all 256 count octets",
+                                  "mpi: all integers 0..1100" + ("" if quick else " (mpix: ..70000)")]
     ck.assumptions += ["hash functions are oracles: the logged digest is taken as the hash of the logged input",
                        "line length 64 and CR LF line ends are the implementation's choices within RFC 4880 6.3 (<= 76)",
                        "judgement by GnuPG is not part of this technique; S2K/KDF derivation values are not checked, only "
@@ -300,6 +288,12 @@ def run(tier, seed):
     return ck.finish()
 
 # ---------------------------------------------------------------------------------------------- replay
+def _finish_replay(ck):
+    """a replay decides one case; it does not replace the evidence file of the last full run"""
+    vlib.log("%s replay: states=%d traces=%d evaluations=%d violations=%d" % (
+        PID, ck.cov["states"], ck.cov["traces_validated_against_impl"], ck.cov["evaluations"], ck.violations))
+    return 1 if ck.violations else 0
+
 def replay(path, seed):
     ck = vlib.Check(PID, "quick", seed, "model_checking")
     os.makedirs(ODIR, exist_ok=True)
@@ -310,18 +304,18 @@ def replay(path, seed):
         apply_trace_result(ck, check_trace("replay", [case["event"]]))
         ck.sample({"replayed_event": {k: v for k, v in case["event"].items() if k != "md"}})
         # record the same call again on the current tree? the event is the observation; validation is what is replayed
-        return ck.finish()
+        return _finish_replay(ck)
     c = case["case"]
     fam = c["fam"].split("-")[0]
     sd = case.get("seed", seed) + (7919 if c["fam"].endswith("-s2") else 0)
-    r = gen_family(fam, c["i"], c["i"], 1, sd, "-replay")       # the oracle is asked again
+    r = gen_group("One_" + fam, c["i"], c["i"], 1, 1, sd, BIG, BIG, "-replay")       # the oracle is asked again
     ck.add_tlc("tlc-" + fam, r)
-    cs = [x for x in r.printed if isinstance(x, dict) and "op" in x]
+    cs = [x["c"] for x in r.printed if isinstance(x, dict) and "c" in x]
     if len(cs) != 1:
         raise vlib.Infra("replay: TLC printed %d cases" % len(cs))
     cs[0]["fam"] = c["fam"]
     got = run_cases(exe, cs, "replay")
-    compare(ck, cs, got, sd, "quick")
+    compare(ck, cs, got, sd, "quick", replay_path=path)
     ck.add_cases(fam, 1, [json.dumps(cs[0]["in"], sort_keys=True)])
     ck.sample({"replayed": {"family": fam, "i": c["i"], "op": cs[0]["op"]}})
-    return ck.finish()
+    return _finish_replay(ck)
